@@ -7,7 +7,12 @@ package main
 
 import (
 	"errors"
+	"fmt"
+	"os"
+	"path/filepath"
+	"sort"
 	"strings"
+	"sync"
 
 	a "github.com/google/wuffs/lang/ast"
 	"github.com/google/wuffs/lang/check"
@@ -46,8 +51,18 @@ func parseSrc(tm *t.Map, src string) (*a.File, error) {
 	return parse.Parse(tm, srcName, tokens, nil)
 }
 
+// PanicSources collects sources on which the front end panicked (a defect of
+// the compiler, but the subject of property C11, not C01).
+var PanicSources sync.Map
+
 // Fast runs the front end with the shared built-ins.
-func (f *Front) Fast(src string) (*Checked, error) {
+func (f *Front) Fast(src string) (ck *Checked, err error) {
+	defer func() {
+		if e := recover(); e != nil {
+			PanicSources.Store(src, fmt.Sprint(e))
+			ck, err = nil, fmt.Errorf("check: internal error: front end panicked: %v", e)
+		}
+	}()
 	f.uses++
 	file, err := parseSrc(f.tm, src)
 	if err != nil {
@@ -61,7 +76,13 @@ func (f *Front) Fast(src string) (*Checked, error) {
 }
 
 // Real runs the front end exactly as the compiler does.
-func Real(src string) (*Checked, error) {
+func Real(src string) (ck *Checked, err error) {
+	defer func() {
+		if e := recover(); e != nil {
+			PanicSources.Store(src, fmt.Sprint(e))
+			ck, err = nil, fmt.Errorf("check: internal error: front end panicked: %v", e)
+		}
+	}()
 	tm := &t.Map{}
 	file, err := parseSrc(tm, src)
 	if err != nil {
@@ -116,10 +137,69 @@ func errClass(err error) string {
 		return "rej:zero-default"
 	case strings.Contains(s, "parse:"):
 		return "rej:parse"
+	case strings.Contains(s, "front end panicked"):
+		return "rej:front-end-panic"
 	case strings.Contains(s, "internal error"):
 		return "rej:internal-error"
 	case strings.Contains(s, "check:"):
 		return "rej:type"
 	}
 	return "rej:other"
+}
+
+// checkStd runs the working tree's checker over every std package that has no
+// `use` declaration (24 of 30, about 30 k lines) and returns the rejected ones.
+func checkStd(repo string) (rejected []string) {
+	ents, err := os.ReadDir(filepath.Join(repo, "std"))
+	if err != nil {
+		return []string{"cannot read std/: " + err.Error()}
+	}
+	for _, e := range ents {
+		if !e.IsDir() {
+			continue
+		}
+		files, _ := filepath.Glob(filepath.Join(repo, "std", e.Name(), "*.wuffs"))
+		sort.Strings(files)
+		var srcs [][]byte
+		uses := false
+		for _, f := range files {
+			b, err := os.ReadFile(f)
+			if err != nil {
+				continue
+			}
+			if strings.Contains(string(b), "\nuse \"") {
+				uses = true
+			}
+			srcs = append(srcs, b)
+		}
+		if uses || len(srcs) == 0 {
+			continue
+		}
+		func() {
+			defer func() {
+				if x := recover(); x != nil {
+					rejected = append(rejected, fmt.Sprintf("std/%s: checker panicked: %v", e.Name(), x))
+				}
+			}()
+			tm := &t.Map{}
+			var asts []*a.File
+			for i, b := range srcs {
+				tokens, _, err := t.Tokenize(tm, files[i], b)
+				if err != nil {
+					rejected = append(rejected, fmt.Sprintf("std/%s: %v", e.Name(), err))
+					return
+				}
+				f, err := parse.Parse(tm, files[i], tokens, nil)
+				if err != nil {
+					rejected = append(rejected, fmt.Sprintf("std/%s: %v", e.Name(), err))
+					return
+				}
+				asts = append(asts, f)
+			}
+			if _, err := check.Check(tm, asts, nil); err != nil {
+				rejected = append(rejected, fmt.Sprintf("std/%s: %s", e.Name(), firstLine(err.Error())))
+			}
+		}()
+	}
+	return rejected
 }
